@@ -175,7 +175,24 @@ function genSpec(seed, idx) {
     for (const [l, sh] of addBoundLate) addBound(l, sh);
     methods.push({ owner: owner.name, name: "m" + m, static: isStatic, lts, implLts, implBounds, self, params, ret, bounds, special, forced });
   }
+  // elision (a spelling, decided by its own PRNG stream so that the bridges themselves stay as they were): where Rust's
+  // elision rules give the same meaning, the lifetime of a returned reference is left out (`-> &T` for `-> &'x T`)
+  const erng = Rng.derive(seed, "gc-sim-elide", idx);
+  for (const m of methods) if (elidable(m) && erng.chance(2, 3)) m.elide = true;
   return { seed, idx, opaques, structs, outs, methods, ltScheme: rng.below(3) };
+}
+
+/** May the lifetime of the returned reference be left out without changing the signature's meaning?
+ *  (A) with a receiver `&'x self` and a return `&'x T`: elided output lifetimes take the receiver's lifetime, whatever the
+ *      other parameters are; (B) without a receiver, when the only parameter is one reference `&'x T` / `&'x [u8]` / `&'x str`.
+ *  The receiver's / parameter's lifetime stays named: Diplomat rejects an output lifetime that resolves to an anonymous
+ *  input ("Found elided lifetime in return type"), and an explicit `'_` makes the tool panic on this tree (C15's subject). */
+export function elidable(m) {
+  if (!m.ret.lt || !(m.ret.kind === "ref" || m.ret.kind === "optref")) return false;
+  if (m.self) return m.self.lt === m.ret.lt;
+  if (m.params.length !== 1) return false;
+  const p = m.params[0];
+  return (p.kind === "opaque" || p.kind === "slice") && !(p.args || []).length && p.lt === m.ret.lt;
 }
 
 // ---- Rust text --------------------------------------------------------------------------------------
@@ -201,13 +218,14 @@ function paramTy(p) {
   if (p.kind === "slice") return sliceTy(p.enc, p.lt);
   return p.ty + tyArgs(p.args);
 }
-function retTy(r) {
+function retTy(r, elide) {
+  const amp = (l) => (elide ? "&" : "&" + lt(l) + " ");
   const inner = r.selfSpelling ? "Self" : r.ty + tyArgs(r.args);
   switch (r.kind) {
     case "box": return "Box<" + inner + ">";
-    case "ref": return "&" + lt(r.lt) + " " + inner;
+    case "ref": return amp(r.lt) + inner;
     case "optbox": return "Option<Box<" + inner + ">>";
-    case "optref": return "Option<&" + lt(r.lt) + " " + inner + ">";
+    case "optref": return "Option<" + amp(r.lt) + inner + ">";
     case "struct": return inner;
     case "resstruct": return "Result<" + inner + ", ()>";
     case "reserr": return "Result<Box<" + inner + ">, Box<" + r.err.ty + tyArgs(r.err.args) + ">>";
@@ -252,7 +270,7 @@ export function rustSource(spec) {
       const outer = [...new Set(m.bounds.filter((b) => !m.lts.includes(b[0])).map((b) => b[0]))];
       const where = outer.length ? " where " + outer.map((l) => lt(l) + ": " + m.bounds.filter((b) => b[0] === l).map((b) => lt(b[1])).join(" + ")).join(", ") : "";
       if (m.special) s += "        #[diplomat::attr(auto, " + m.special + ")]\n";
-      s += "        pub fn " + m.name + generics(m.lts, m.bounds) + "(" + ps.join(", ") + ") -> " + retTy(m.ret) + where + " { unimplemented!() }\n";
+      s += "        pub fn " + m.name + generics(m.lts, m.bounds) + "(" + ps.join(", ") + ") -> " + retTy(m.ret, m.elide) + where + " { unimplemented!() }\n";
       s += "    }\n\n";
     }
   }
@@ -371,6 +389,18 @@ function catalogueSpec() {
     { ...M("O1", "m21", { lts: [], implLts: ["s0"], self: { lt: null, mut: true }, ret: { kind: "optref", ty: "O0", lt: "s0", args: [] } }), special: "iterator" },
     { ...M("O2", "m22", { lts: [], implLts: ["s0", "s1"], self: { lt: null, mut: true }, ret: { kind: "optbox", ty: "O1", lt: null, args: ["s1"] } }), special: "iterator" },
     M("O2", "m12", { lts: ["a"], implLts: ["s0", "s1"], self: { lt: "a" }, params: [{ name: "p0", kind: "optopaque", ty: "O0", lt: "a", args: [] }], ret: { kind: "optref", ty: "O0", lt: "a", args: [] } }),
+    // elided output lifetimes (`elide` is a spelling: `-> &T` for `-> &'x T`; the model keeps the name): the receiver's
+    // lifetime wins over the parameters', whether there are none, one (named or anonymous, plain, optional, a slice) or several
+    { ...M("O1", "m23", { lts: ["a"], implLts: ["s0"], self: { lt: "a" }, ret: ref("O0", "a") }), elide: true },
+    { ...M("O0", "m24", { lts: ["a", "b"], self: { lt: "a" }, params: [op("p0", "O0", "b")], ret: ref("O0", "a") }), elide: true },
+    { ...M("O0", "m25", { lts: ["a", "b"], self: { lt: "a", mut: true }, params: [{ name: "p0", kind: "optopaque", ty: "O0", lt: "b", args: [] }], ret: { kind: "optref", ty: "O0", lt: "a", args: [] } }), elide: true },
+    { ...M("O0", "m26", { lts: ["a", "b"], bounds: [["b", "a"]], self: { lt: "a" }, params: [op("p0", "O0", "b")], ret: ref("O1", "a", ["b"]) }), elide: true },
+    { ...M("O0", "m27", { lts: ["a"], self: { lt: "a" }, params: [op("p0", "O0", null), sl("p1", null)], ret: ref("O0", "a") }), elide: true },
+    { ...M("O0", "m28", { lts: ["a", "b"], self: { lt: "a" }, params: [sl("p0", "b", "str")], ret: ref("O0", "a") }), elide: true },
+    { ...M("O0", "m29", { lts: ["a", "b", "c"], self: { lt: "a" }, params: [op("p0", "O0", "b"), op("p1", "O0", "c")], ret: ref("O0", "a") }), elide: true },
+    { ...M("O0", "m30", { lts: ["a"], params: [op("p0", "O0", "a")], ret: { kind: "optref", ty: "O0", lt: "a", args: [] } }), elide: true },
+    { ...M("O0", "m31", { lts: ["a"], params: [sl("p0", "a")], ret: ref("O0", "a") }), elide: true },
+    { ...M("O2", "m32", { lts: ["a", "b"], bounds: [["s1", "a"]], implLts: ["s0", "s1"], self: { lt: "a" }, params: [op("p0", "O1", "b", ["b"])], ret: ref("O1", "a", ["s1"]) }), elide: true },
   ];
   return { seed: 0, idx: -1, catalogue: true, opaques, structs, outs, methods, ltScheme: 1 };
 }
@@ -426,6 +456,9 @@ if (process.argv[1] && process.argv[1].endsWith("gen.mjs")) {
   for (let i = 0; i < args.length; i += 2) kv[args[i].replace(/^--/, "")] = args[i + 1];
   const spec = kv.catalogue ? catalogueSpec() : kv.negative !== undefined ? negativeSpecs()[Number(kv.negative)] : kv.omit !== undefined ? omitSpec(Number(kv.seed ?? 20261002), Number(kv.omit)) : genSpec(Number(kv.seed ?? 20261002), Number(kv.bridge ?? 0));
   if (!spec) { console.log("NO-SPEC"); process.exit(3); }
+  // methods the tool's lowering gate rejected on the tree under test (lib/c04.py retries without them): a rejected method
+  // needs no checking, and it must not take the rest of its bridge with it
+  if (kv.drop) { const drop = new Set(kv.drop.split(",")); spec.methods = spec.methods.filter((m) => !drop.has(m.owner + "::" + m.name)); spec.dropped = [...drop]; }
   const out = kv.out;
   fs.mkdirSync(path.join(out, "src"), { recursive: true });
   fs.writeFileSync(path.join(out, "src", "lib.rs"), rustSource(spec));
